@@ -17,6 +17,12 @@ CLAIMS = {
          "Same bounds as C04.", "5.1, 6.7"),
  "C14": ("serverid.Handler6/Handler4 executed on structurally built requests: message-type byte symbolic, Server-ID absent or any DUID kind (LLT/EN/LL/UUID/opaque, symbolic fields, payload length cfg-1..cfg+1 or empty), relay depth 0..2, configured id = any value setup accepts; oracle = RFC 8415 s16 table written independently. v4: opcode, siaddr (nil/4/16-byte), option 54 (absent/4/3 bytes) symbolic. Setup functions run on concrete argument vectors to tie the accepted shapes to the generator.",
          "Requests are built as parsed structures, not from wire bytes (the wire layer is C01).", "6.14"),
+ "C17": ("Every option plugin handler (dns 4/6, mtu, netmask, router, searchdomains 4/6, staticroute, lease_time, ipv6only, autoconfigure, nbp 4/6, sleep 4/6) executed with its package state set to a symbolic accepted configuration and a structurally built request (parameter request list absent / zero-length / 1..3 symbolic codes; ORO likewise); oracle per plugin = entitlement predicate + independently written wire encoding; asserted: option present iff entitled, bytes equal, exactly once, every other option and header field untouched, stop flag.",
+         "Shape bounds: 1..3 addresses, 1..2 routes (all prefix lengths), 1..2 domains of 1..2 two-letter labels, 3-4 byte strings; durations concrete per case. url.Parse of the nbp argument is configuration side (C19).", "6.17"),
+ "C08": ("One prefix.Handler.Handle step (real bitmap allocator underneath) from an arbitrary state satisfying the plugin invariant: symbolic pool base, symbolic bitmap (arbitrary superset of the modelled leases), 0..2 leases of the requesting client, one lease of another client, symbolic DUID of 4 kinds, symbolic clock; request with 0..2 IA_PDs x 0..2 hints of 8 parser-producible kinds (nil prefix, length-only, own, foreign, any address, longer, nil mask, odd length), relay depth 0..2. Asserted per reply: one IA_PD per IA_PD in order with same IAID, prefix-or-NoPrefixAvail, in pool, aligned, length >= allocation size, 0 < preferred <= valid <= 1h, never the foreign block; invariant re-established.",
+         "Pool geometries (L,page) in {(56,64),(60,62),(62,66),(64,64),(120,124),(0,3)}; quick uses the 4- and 8-block pools. Lifetimes checked as time.Duration values (wire division by 1e9 is out of solver reach). Clock assumption T1.", "5.2, 6.8"),
+ "C09": ("Same step harness: a request for exactly a held prefix, or a hint-less IA_PD (no IAPrefix / nil prefix), from a client that holds leases is answered with the held prefix, consumes no block (bitmap unchanged) and records nothing new; every delegated prefix is present in the client's record afterwards however many were delegated; known leases are kept and their expiry never moves backwards.",
+         "Same bounds as C08.", "5.2, 6.9"),
 }
 props=[json.loads(l) for l in open('/verif/properties.jsonl')]
 NA = {}
